@@ -130,6 +130,8 @@ def downsample_rule(r, rule):
         f = strip(x[1])
         if (head(f) == "glob" and f[1].endswith(".choice")) or (head(f) == "attr" and f[2] == "choice"):
             rp = dict(x[3]).get("replace", x[2][2] if (head(f) == "glob" and len(x[2]) > 2) or (head(f) == "attr" and len(x[2]) > 2) else None)
+            if rp is not None and not is_const(strip(rp)):
+                continue          # a computed flag: the value comparison decides
             okr = rp is not None and is_const(strip(rp), False)
             r.rep.ob(rule, D + "downsample", okr, "the sample is drawn without replacement (no element twice)", where_of(r.P, s2.func, s2.func.node), expected="choice(..., replace=False)",
                      found=show(rp, 20) if rp is not None else "replace absent (library default: with replacement)", key="downsample replace", lint=True)
